@@ -4,6 +4,7 @@ import (
 	"fmt"
 	"go/ast"
 	"path/filepath"
+	"regexp"
 	"sort"
 	"strings"
 )
@@ -157,6 +158,57 @@ func elemType(fd *ast.FuncDecl) (string, bool) {
 	return t, rep
 }
 
+// alphaNormalise renames the receiver, the two parameters and (after a match) the locals of a typed
+// reader/writer to the names the templates and the recorded expression texts use, so that renaming a
+// variable in the Go source does not change the extracted facts.
+func renameIdents(n ast.Node, from, to string) {
+	if from == "" || from == to {
+		return
+	}
+	ast.Inspect(n, func(k ast.Node) bool {
+		if id, ok := k.(*ast.Ident); ok && id.Name == from {
+			id.Name = to
+		}
+		return true
+	})
+}
+
+func normaliseSig(fd *ast.FuncDecl, recv string) {
+	if fd.Recv != nil && len(fd.Recv.List) == 1 && len(fd.Recv.List[0].Names) == 1 {
+		renameIdents(fd.Body, fd.Recv.List[0].Names[0].Name, recv)
+	}
+	var ps []string
+	for _, p := range fd.Type.Params.List {
+		for _, n := range p.Names {
+			ps = append(ps, n.Name)
+		}
+	}
+	if len(ps) == 2 {
+		// temporary names first: a swap (field <-> v) must not merge the two
+		renameIdents(fd.Body, ps[0], "HP_field")
+		renameIdents(fd.Body, ps[1], "HP_v")
+		renameIdents(fd.Body, "HP_field", "field")
+		renameIdents(fd.Body, "HP_v", "v")
+	}
+}
+
+var localHole = regexp.MustCompile(`\b(x|n|xn|packed)\b`)
+
+// holed: the template with its local variables turned into identifier holes
+func holed(tmpl string) string { return localHole.ReplaceAllString(tmpl, "HI_$1") }
+
+// canonLocals: after a match, rename the bound locals back to the template's names inside the body
+func canonLocals(fd *ast.FuncDecl, bd *bindings) {
+	for _, c := range []string{"x", "n", "xn", "packed"} {
+		if a := bd.idents["HI_"+c]; a != "" && a != c {
+			renameIdents(fd.Body, a, "HQ_"+c)
+		}
+	}
+	for _, c := range []string{"x", "n", "xn", "packed"} {
+		renameIdents(fd.Body, "HQ_"+c, c)
+	}
+}
+
 func genCoderTable(repo string, tr *translator, exprs *strings.Builder, note func(string, ...interface{})) string {
 	var b strings.Builder
 	b.WriteString("import PicoModel.TableTypes\n/- GENERATED by tools/harness/cmd/facts from encoder_types.go and decoder_types.go; do not edit. -/\nnamespace Pico.Gen\nopen Pico\n\n")
@@ -217,6 +269,7 @@ func genCoderTable(repo string, tr *translator, exprs *strings.Builder, note fun
 		row := fmt.Sprintf("  { name := %s, kind := \"\", always := false, repeated := false, shape := .unrecognised, guard := \"\", wire := \"\", prim := \"\", expr := \"\", lenMul := 0 }", leanStr(name))
 		if ok {
 			elem, _ := elemType(fd)
+			normaliseSig(fd, "enc")
 			stmts := fd.Body.List
 			guard := ""
 			if len(stmts) > 0 {
@@ -246,7 +299,8 @@ func genCoderTable(repo string, tr *translator, exprs *strings.Builder, note fun
 			matched := false
 			for _, c := range cands {
 				bd := newBindings()
-				if matchStmts(parseTemplate(c.tmpl), stmts, bd) {
+				if matchStmts(parseTemplate(holed(c.tmpl)), stmts, bd) {
+					canonLocals(fd, bd)
 					wire := bd.idents["HI_wire"]
 					prim := strings.TrimPrefix(bd.idents["HI_append"], "Append")
 					mul := bd.lits["HL_mul"]
@@ -291,6 +345,7 @@ func genCoderTable(repo string, tr *translator, exprs *strings.Builder, note fun
 		row := fmt.Sprintf("  { name := %s, kind := \"\", repeated := false, shape := .unrecognised, wire := \"\", prim := \"\", expr := \"\", wireMsg := \"\", parseMsg := \"\", bytesMsg := \"\" }", leanStr(name))
 		if ok {
 			elem, _ := elemType(fd)
+			normaliseSig(fd, "dec")
 			type cand struct {
 				tmpl, shape string
 			}
@@ -303,7 +358,8 @@ func genCoderTable(repo string, tr *translator, exprs *strings.Builder, note fun
 			matched := false
 			for _, c := range cands {
 				bd := newBindings()
-				if matchStmts(parseTemplate(c.tmpl), fd.Body.List, bd) {
+				if matchStmts(parseTemplate(holed(c.tmpl)), fd.Body.List, bd) {
+					canonLocals(fd, bd)
 					// x has the result type of the Consume primitive
 					prim := strings.TrimPrefix(bd.idents["HI_consume"], "Consume")
 					xType := map[string]string{"Varint": "uint64", "Fixed32": "uint32", "Fixed64": "uint64", "String": "string", "Bytes": "[]byte"}[prim]
